@@ -72,8 +72,22 @@ impl World {
         Ok(self.nexus.execute(parsed, &request, &request.operations[0]).await)
     }
 
-    pub async fn exec(&self, command: &str, params: &BTreeMap<String, Value>) -> Outcome {
-        let resp = match self.run(command, params).await {
+    /// a pre-parsed tree handed straight to the executor (no `parse_kip`, no `validate_command` by the caller)
+    pub async fn run_tree(&self, tree: &Value, text: &str, params: &BTreeMap<String, Value>) -> Result<Response, String> {
+        let mut request = Request::single(text);
+        if !params.is_empty() {
+            request.parameters = Some(params.iter().map(|(k, v)| (k.clone(), v.clone())).collect());
+        }
+        let parsed: anda_kip::Command = serde_json::from_value(tree.clone()).map_err(|e| e.to_string())?;
+        Ok(self.nexus.execute(parsed, &request, &request.operations[0]).await)
+    }
+
+    pub async fn exec(&self, command: &str, tree: Option<&Value>, params: &BTreeMap<String, Value>) -> Outcome {
+        let run = match tree {
+            Some(t) => self.run_tree(t, command, params).await,
+            None => self.run(command, params).await,
+        };
+        let resp = match run {
             Err(e) => return Outcome::Parse(e),
             Ok(r) => r,
         };
